@@ -103,6 +103,35 @@ theorem dropRecvEntry_length (s : Sess) (sid : Nat) : (s.dropRecvEntry sid).objs
 @[simp] theorem dropRecvEntry_closed (s : Sess) (sid : Nat) : (s.dropRecvEntry sid).closed = s.closed := by
   unfold Sess.dropRecvEntry; split <;> rfl
 
+@[simp] theorem modObj_nextSid (s : Sess) (i : Nat) (g : Obj → Obj) : (s.modObj i g).nextSid = s.nextSid := rfl
+@[simp] theorem dropRecvEntry_nextSid (s : Sess) (sid : Nat) : (s.dropRecvEntry sid).nextSid = s.nextSid := by
+  unfold Sess.dropRecvEntry; split <;> rfl
+@[simp] theorem failPendingOpen_streams (s : Sess) (sid : Nat) : (s.failPendingOpen sid).streams = s.streams := by
+  unfold Sess.failPendingOpen; split <;> rfl
+@[simp] theorem failPendingOpen_recv (s : Sess) (sid : Nat) : (s.failPendingOpen sid).recv = s.recv := by
+  unfold Sess.failPendingOpen; split <;> rfl
+@[simp] theorem failPendingOpen_wire (s : Sess) (sid : Nat) : (s.failPendingOpen sid).wire = s.wire := by
+  unfold Sess.failPendingOpen; split <;> rfl
+@[simp] theorem failPendingOpen_closed (s : Sess) (sid : Nat) : (s.failPendingOpen sid).closed = s.closed := by
+  unfold Sess.failPendingOpen; split <;> rfl
+@[simp] theorem failPendingOpen_nextSid (s : Sess) (sid : Nat) : (s.failPendingOpen sid).nextSid = s.nextSid := by
+  unfold Sess.failPendingOpen; split <;> rfl
+theorem failPendingOpen_length (s : Sess) (sid : Nat) : (s.failPendingOpen sid).objs.length = s.objs.length := by
+  unfold Sess.failPendingOpen; split <;> simp [modObj_length]
+theorem failPendingOpen_getElem? (s : Sess) (sid h : Nat) (hne : tblGet s.streams sid ≠ some h) :
+    (s.failPendingOpen sid).objs[h]? = s.objs[h]? := by
+  unfold Sess.failPendingOpen
+  cases hg : tblGet s.streams sid with
+  | none => rfl
+  | some i =>
+    have : h ≠ i := fun e => hne (by rw [hg, e])
+    simp [modObj_getElem?, this]
+
+@[simp] theorem notifySynack_rd (o : Obj) (r : SynSt) : (o.notifySynack r).rd = o.rd := by
+  unfold Obj.notifySynack; split <;> rfl
+@[simp] theorem notifySynack_sid (o : Obj) (r : SynSt) : (o.notifySynack r).sid = o.sid := by
+  unfold Obj.notifySynack; split <;> rfl
+
 /-- commands whose handling never writes to the transport -/
 def quietCmd : Cmd → Bool
   | .push | .syn | .synAck | .fin | .waste | .heartResponse | .serverSettings | .updatePaddingScheme => true
@@ -182,7 +211,8 @@ theorem handleFrame_quiet_objs (s : Sess) (f : Frame) (hq : quietCmd f.cmd = tru
       simp [modObj_getElem?, this]
     · rfl
   · -- fin
-    simp [dropRecvEntry_getElem? s f.sid h h1]
+    have h2' : tblGet (s.dropRecvEntry f.sid).streams f.sid ≠ some h := by simpa using h2
+    simp [failPendingOpen_getElem? _ f.sid h h2', dropRecvEntry_getElem? s f.sid h h1]
   · -- updatePaddingScheme
     split
     · split <;> rfl
@@ -372,8 +402,14 @@ theorem handleFrame_quiet_WF (s : Sess) (f : Frame) (hq : quietCmd f.cmd = true)
     · exact modObj_WF hwf _ _ (fun _ => rfl) (fun o h => push_WF o.rd f.data h)
     · exact hwf
   · -- fin
-    have hd := dropRecvEntry_WF hwf f.sid
-    apply WF_of_step (s := s.dropRecvEntry f.sid) _ _ _ _ hd
+    have hd0 := dropRecvEntry_WF hwf f.sid
+    have hd : ((s.dropRecvEntry f.sid).failPendingOpen f.sid).WF := by
+      unfold Sess.failPendingOpen
+      split
+      · exact modObj_WF hd0 _ _ (fun o => by unfold Obj.notifySynack; split <;> rfl)
+          (fun o h => by unfold Obj.notifySynack; split <;> exact h)
+      · exact hd0
+    apply WF_of_step (s := (s.dropRecvEntry f.sid).failPendingOpen f.sid) _ _ _ _ hd
     · intro h o ho; exact ⟨o, ho, rfl⟩
     · intro h o' ho'; exact hd.rd_ok h o' ho'
     · intro k h hk
@@ -501,7 +537,7 @@ theorem handleFrame_nextSid (s : Sess) (f : Frame) : (s.handleFrame f).1.nextSid
     · split <;> simp [Sess.dropRecvEntry] <;> split <;> rfl
     · rfl
   · split <;> rfl
-  · simp [Sess.dropRecvEntry]; split <;> rfl
+  · simp
   · split
     · exact handleSettings_nextSid _ _
     · rfl
